@@ -51,6 +51,7 @@ const P_TEN_NODES: usize = 3;
 const P_SOURCES_WITH_VACANCY: usize = 4;
 const P_ACYCLIC_ORDER_CHECKED: usize = 5;
 const P_ZERO_BUFFER_NODE: usize = 6;
+const P_33_NODES: usize = 7;
 
 struct Call {
     tag: u32,
@@ -110,6 +111,7 @@ struct Gen {
     init: i64,
     allow_cycles: bool,
     allow_switch: bool,
+    max_nodes: usize,
 }
 
 fn gen_op(r: &mut Rng, g: &mut Gen, live: usize, edges: usize) -> Option<Op> {
@@ -125,7 +127,7 @@ fn gen_op(r: &mut Rng, g: &mut Gen, live: usize, edges: usize) -> Option<Op> {
         return Some(Op::kab(O_ADD_EDGE, r.range(0, live as i64 - 1), r.range(0, live as i64 - 1)));
     }
     let w = [
-        if live < 10 { 3u32 } else { 0 },
+        if live < g.max_nodes { 3u32 } else { 0 },
         if live > 0 { 6 } else { 0 },
         if edges > 0 { 2 } else { 0 },
         if live > 0 { 2 } else { 0 },
@@ -147,12 +149,18 @@ fn gen_op(r: &mut Rng, g: &mut Gen, live: usize, edges: usize) -> Option<Op> {
 fn drive<G: GraphLike<ProbeNode>>(src: &mut Source, obs: &mut Observer) -> Result<(), Violation> {
     let cap = src.cfg("processor_capacity", 0, 12, |r| r.range(0, 12)) as usize;
     let mut gen = Gen {
-        steps: src.cfg("steps", 0, 60, |r| r.range(2, 60)) as usize,
+        // rare big graphs: the visit maps are bit sets in 32-bit blocks, so 33 and 65 nodes are thresholds
+        max_nodes: src.cfg("max_nodes", 1, 70, |r| if r.chance(1, 25) { *r.pick(&[33i64, 40, 65, 70]) } else { 10 }) as usize,
+        steps: 0,
         done: 0,
-        init: src.cfg("init_ops", 0, 24, |r| r.range(0, 24)),
+        init: 0,
         allow_cycles: src.cfg("allow_cycles", 0, 1, |r| r.chance(2, 3) as i64) == 1,
         allow_switch: src.cfg("allow_switch", 0, 1, |r| r.chance(1, 3) as i64) == 1,
     };
+    let big = gen.max_nodes > 10;
+    gen.init = src.cfg("init_ops", 0, 200, |r| if big { r.range(60, 200) } else { r.range(0, 24) });
+    gen.steps = src.cfg("steps", 0, 300, |r| if big { gen.init as i64 as i64 + r.range(10, 100) } else { r.range(2, 60) }) as usize;
+    let max_edges = 24.max(gen.max_nodes * 2);
     let log: Log = Rc::new(RefCell::new(Vec::new()));
     let call = Rc::new(Cell::new(0u32));
     let mut next_tag = 1u32;
@@ -189,7 +197,7 @@ fn drive<G: GraphLike<ProbeNode>>(src: &mut Source, obs: &mut Observer) -> Resul
         };
         match op.k {
             O_ADD_NODE => {
-                if live.len() >= 10 {
+                if live.len() >= gen.max_nodes {
                     src.skip_last();
                     obs.skipped();
                     continue;
@@ -211,6 +219,9 @@ fn drive<G: GraphLike<ProbeNode>>(src: &mut Source, obs: &mut Observer) -> Resul
                 if w.m.live().len() == 10 {
                     obs.probe(P_TEN_NODES);
                 }
+                if w.m.live().len() == 33 {
+                    obs.probe(P_33_NODES);
+                }
             }
             O_ADD_EDGE => {
                 let (Some(a), Some(b)) = (pick(op.a), pick(op.b)) else {
@@ -218,7 +229,7 @@ fn drive<G: GraphLike<ProbeNode>>(src: &mut Source, obs: &mut Observer) -> Resul
                     obs.skipped();
                     continue;
                 };
-                if w.m.edges.len() >= 24 || (!gen.allow_cycles && w.m.would_cycle(a, b)) {
+                if w.m.edges.len() >= max_edges || (!gen.allow_cycles && w.m.would_cycle(a, b)) {
                     src.skip_last();
                     obs.skipped();
                     continue;
@@ -472,6 +483,7 @@ impl Scenario for GraphScenario {
             "sources()/sinks() on a StableGraph with vacant slots",
             "inputs-first stamp checked (acyclic upstream)",
             "node with zero buffers",
+            "33 nodes (second block of the visit bit set)",
         ]
     }
     fn rule(&self) -> &'static str {
@@ -491,7 +503,7 @@ impl Scenario for GraphScenario {
     }
     fn runs(&self, tier: &str) -> u64 {
         if tier == "quick" {
-            200_000
+            500_000
         } else {
             20_000_000
         }
